@@ -658,7 +658,7 @@ def oracle(case, pr):
             ser = series[(i, j)]
             created = pools[i]["created"]
             in_window = created <= start <= end <= now and (keepmax is None or keepmax <= start)
-            if stt == Q_PANIC and ms(start) == ms(end) and start < end and in_window:
+            if stt == Q_PANIC and ms(start) == ms(end) and start < end:
                 viol("query %d: %s TWAP over [%d, %d] (inside one millisecond) panics" % (idx, "geometric" if op["kind"] else "arithmetic", start, end),
                      {"fn": "twap.computeTwap", "kind": "panic", "cause": "interval_within_one_millisecond"})
                 continue
